@@ -264,7 +264,7 @@ def _case_body(ch, out, cfg, content, hot, line, outmode, img, vals, fn, files):
 
     # ---- Gaussian statistics
     if (content["kind"] == "noise" and content["blank"] == "none" and cfg["rows"] >= cfg["box"][0]
-            and cfg["cols"] >= cfg["box"][1]):
+            and cfg["cols"] >= cfg["box"][1] and _exact(cfg, img)):      # (the file really holds the generated noise)
         neff = (cfg["box"][0] // 2 - 1) * (cfg["box"][1] // 2 - 1)
         if neff >= 64:
             out.stats["oracle:gaussian_statistics"] += 1
@@ -354,7 +354,7 @@ def _case_body(ch, out, cfg, content, hot, line, outmode, img, vals, fn, files):
 
     # ---- shift by a dyadic constant
     if ch.chance("do_shift", 3, 4):
-        p = ch.pick("shift_pow", (10, 3, 13, 7, 0, 12))
+        p = ch.pick("shift_pow", (10, 3, 13, 7, 0, 12)) + content["sigma_pow"]       # shifts of 1 .. 8192 noise rms
         c = (2.0 ** p) * (-1.0 if ch.chance("shift_neg", 1, 3) else 1.0)
         shifts = [c, 2.0 * c, -c]
         results = []
